@@ -858,6 +858,6 @@ func init() {
 		},
 		Enumerate: c04Enumerate,
 		Run:       c04Run,
-		Budget:    map[string]time.Duration{"quick": 150 * time.Second, "thorough": 30 * time.Minute},
+		Budget:    map[string]time.Duration{"quick": 400 * time.Second, "thorough": 30 * time.Minute},
 	})
 }
